@@ -44,13 +44,13 @@ def C19():
         "bounds": {
             "quick": ("double: all labelled integer metrics on 2..4 points with distances in {1,2,5,9,10}; the 788 isometry classes "
                       "of metrics on 5 points with distances in {1,2,9,10}; all point sets {0=x0<x1<..} of 2..5 points in the "
-                      "integer segment [0,12]; all 3-,4- and 5-subsets of the planar grid {0,1,3,9}^2 (Euclidean, points+distance "
+                      "integer segment [0,16]; all 3-,4- and 5-subsets of the planar grid {0,1,3,9}^2 (Euclidean, points+distance "
                       "constructor). Every first landmark; epsilon in {0.05,0.1,0.25,0.5,0.75,0.9,0.99} without bounds (guarantee), "
-                      "{1,1.5,3} without bounds and {0.5,1.5} x mini in {none,1.5,2.5} x maxi in {none,2.5,6.5} (validity; not for "
-                      "the 5-point families); every dim_max in 1..n-1; persistence over Z_2"),
+                      "{1,1.5,3} without bounds and {0.5,1.5} x mini in {none,1.5,2.5} x maxi in {none,2.5,6.5} (validity); "
+                      "every dim_max in 1..n-1; persistence over Z_2; float instantiation on the 3- and 4-subsets of the grid"),
             "thorough": ("quick scope plus: all 53 248 labelled metrics on 5 points over {1,2,9,10} and all 7 580 over {1,2,4,8}; "
                          "labelled metrics on 2..4 points over {1,2,3,6,10,11}; isometry classes on 5 points over {1,2,3,4} and "
-                         "on 6 points over {1,2}; segment [0,16] with up to 6 points; grid {0,1,3,9}^2 with 5 points (all "
+                         "on 6 points over {1,2}; segment [0,20] with up to 5 points and [0,16] with 6 points; grid {0,1,3,9}^2 with 5 points (all "
                          "configurations) and 6 points (guarantee configurations); grids {0,1,2,3}^2 and {0,1,4,12}^2 with 5 "
                          "points; float instantiation on the segment and grid families; Z_3 persistence on the 5-point grid"),
         },
@@ -68,10 +68,11 @@ def C19():
         "runs": {
             "quick": [
                 {"unit": D, "args": ["--fam", "int", "--n", "2,3,4", "--vals", "1,2,5,9,10"], "shards": 3, "cores": 1},
-                {"unit": D, "args": ["--fam", "int", "--n", "5", "--vals", "1,2,9,10", "--canon", "1"] + G_ONLY, "cores": 1},
-                {"unit": D, "args": ["--fam", "line", "--n", "2,3,4,5", "--N", "12"], "shards": 2, "cores": 1},
-                {"unit": D, "args": ["--fam", "grid", "--n", "3,4", "--coords", "0,1,3,9"], "shards": 3, "cores": 1},
-                {"unit": D, "args": ["--fam", "grid", "--n", "5", "--coords", "0,1,3,9"] + G_ONLY, "shards": 4, "cores": 1},
+                {"unit": D, "args": ["--fam", "int", "--n", "5", "--vals", "1,2,9,10", "--canon", "1"], "shards": 2, "cores": 1},
+                {"unit": D, "args": ["--fam", "line", "--n", "2,3,4,5", "--N", "16"], "shards": 3, "cores": 1},
+                {"unit": D, "args": ["--fam", "grid", "--n", "3,4", "--coords", "0,1,3,9"], "shards": 2, "cores": 1},
+                {"unit": D, "args": ["--fam", "grid", "--n", "5", "--coords", "0,1,3,9"], "shards": 6, "cores": 1},
+                {"unit": F, "args": ["--fam", "grid", "--n", "3,4", "--coords", "0,1,3,9"], "cores": 1},
             ],
             "thorough": [
                 {"unit": D, "args": ["--fam", "int", "--n", "2,3,4", "--vals", "1,2,5,9,10"], "shards": 2, "cores": 1, "timeout": 1500},
@@ -80,7 +81,8 @@ def C19():
                 {"unit": D, "args": ["--fam", "int", "--n", "2,3,4", "--vals", "1,2,3,6,10,11"], "shards": 2, "cores": 1, "timeout": 1500},
                 {"unit": D, "args": ["--fam", "int", "--n", "5", "--vals", "1,2,3,4", "--canon", "1"], "shards": 2, "cores": 1, "timeout": 1500},
                 {"unit": D, "args": ["--fam", "int", "--n", "6", "--vals", "1,2", "--canon", "1"], "cores": 1, "timeout": 1500},
-                {"unit": D, "args": ["--fam", "line", "--n", "2,3,4,5", "--N", "16"], "shards": 2, "cores": 1, "timeout": 1500},
+                {"unit": D, "args": ["--fam", "int", "--n", "5", "--vals", "1,2,9,10", "--canon", "1"], "shards": 2, "cores": 1, "timeout": 1500},
+                {"unit": D, "args": ["--fam", "line", "--n", "2,3,4,5", "--N", "20"], "shards": 4, "cores": 1, "timeout": 1500},
                 {"unit": D, "args": ["--fam", "line", "--n", "6", "--N", "16"], "shards": 6, "cores": 1, "timeout": 2400},
                 {"unit": D, "args": ["--fam", "grid", "--n", "3,4,5", "--coords", "0,1,3,9"], "shards": 4, "cores": 1, "timeout": 2400},
                 {"unit": D, "args": ["--fam", "grid", "--n", "6", "--coords", "0,1,3,9"] + G_ONLY, "shards": 6, "cores": 1, "timeout": 2400},
